@@ -6,6 +6,8 @@ Model: Chokan.Model.Server (`confirm`, `updateWord`, `expire`) and Chokan.Model.
 import Chokan.Model.Server
 import Chokan.Lemmas.Kkc
 import Chokan.Gen.Server
+import Chokan.Lemmas.KkcCounts
+import Chokan.Props.C02
 
 namespace Chokan.Props.C06
 open Chokan.Server Chokan.Kkc Chokan.Dic
@@ -65,5 +67,62 @@ in particular counts learned in one context never influence another: -/
 theorem C06_context_isolation (t : Tables) (ctx : Ctx) (f g : Freq) (n : Node)
     (h : ∀ w, freqOf f ctx w = freqOf g ctx w) : nodeScore t ctx f n = nodeScore t ctx g n := by
   cases n <;> simp [nodeScore, h]
+
+/-- Every text of one list is a text of the other when that one is untruncated. -/
+theorem texts_transfer (t : Tables) (ctx : Ctx) (f f' : Freq) (g0 : Graph) (n fuel : Nat) (R R' : List Cand)
+    (hR : nBest t ctx f (forwardDp t ctx f g0) n fuel = R)
+    (hopt' : ∀ (p : List Node) (s : Nat), IsChain (forwardDp t ctx f' g0) (.bos :: p) →
+      pathScore t ctx f' (.bos :: p) = some s →
+      ((p.map Node.text).flatten ∈ R'.map Cand.text) ∨ (R'.length = n ∧ ∀ r ∈ R', s ≤ r.score))
+    (hlt' : R'.length < n) : ∀ x ∈ R.map Cand.text, x ∈ R'.map Cand.text := by
+  intro x hx
+  obtain ⟨r, hr, rfl⟩ := List.mem_map.1 hx
+  rw [← hR] at hr
+  obtain ⟨hch, p, hp⟩ := nBest_chains t ctx f _ n fuel r hr
+  have hsc := nBest_scores t ctx f _ n fuel r hr
+  have hsame : SameUpToFwd (forwardDp t ctx f g0) (forwardDp t ctx f' g0) :=
+    sameUpToFwd_trans (sameUpToFwd_symm (forwardDp_same t ctx f g0)) (forwardDp_same t ctx f' g0)
+  obtain ⟨C', hC', hs⟩ := chain_same hsame r.chain hch
+  rw [hp] at hs
+  cases C' with
+  | nil => simp at hs
+  | cons a' p' =>
+    simp only [List.map_cons, List.cons.injEq] at hs
+    have ha' : a' = .bos := strip_bos a' hs.1
+    subst ha'
+    obtain ⟨s', hs'⟩ := pathScore_same t ctx f f' r.chain (.bos :: p') (by rw [hp]; simp [hs.2]) r.score hsc
+    have htext : ((Node.bos :: p').map Node.text).flatten = (r.chain.map Node.text).flatten :=
+      map_text_strip r.chain (.bos :: p') (by rw [hp]; simp [hs.2])
+    rcases hopt' p' s' hC' hs' with h | ⟨h, _⟩
+    · have : (p'.map Node.text).flatten = r.text := by
+        simpa [Cand.text, Node.text] using htext
+      rw [← this]; exact h
+    · omega
+
+/-- **Learning only re-ranks.**  For every input, well-formed dictionary, context and `n ≥ 1`, and any
+two states `f`, `f'` of the learned counts (in particular with and without learned data): from some
+number of loop iterations on both conversions return fixed lists, and whenever both are untruncated
+(fewer than `n` entries) they contain exactly the same texts. -/
+theorem C06_same_untruncated_set (t : Tables) (input : Str) (d : Dict) (ctx : Ctx) (f f' : Freq) (n : Nat)
+    (hn : 1 ≤ n) (hd : Dict.WF d) :
+    ∃ fuel0 R R', ∀ fuel, fuel0 ≤ fuel →
+      getCandidates t input d ctx f n fuel = some R ∧ getCandidates t input d ctx f' n fuel = some R' ∧
+      (R.length < n → R'.length < n → ∀ x, x ∈ R.map Cand.text ↔ x ∈ R'.map Cand.text) := by
+  have hg0 : ∃ g0, fromInput t input d ctx = some g0 := ⟨_, rfl⟩
+  obtain ⟨g0, hg0⟩ := hg0
+  obtain ⟨fa, R, hall⟩ := C02.C02_full t input d ctx f n hn hd g0 hg0
+  obtain ⟨fb, R', hall'⟩ := C02.C02_full t input d ctx f' n hn hd g0 hg0
+  refine ⟨max fa fb, R, R', ?_⟩
+  intro fuel hf
+  obtain ⟨hget, _, _, _, hopt⟩ := hall fuel (by omega)
+  obtain ⟨hget', _, _, _, hopt'⟩ := hall' fuel (by omega)
+  refine ⟨hget, hget', ?_⟩
+  intro hlt hlt' x
+  have hR : nBest t ctx f (forwardDp t ctx f g0) n fuel = R := by
+    simpa [getCandidates, hg0] using hget
+  have hR' : nBest t ctx f' (forwardDp t ctx f' g0) n fuel = R' := by
+    simpa [getCandidates, hg0] using hget'
+  exact ⟨texts_transfer t ctx f f' g0 n fuel R R' hR hopt' hlt' x,
+         texts_transfer t ctx f' f g0 n fuel R' R hR' hopt hlt x⟩
 
 end Chokan.Props.C06
